@@ -29,7 +29,7 @@ class OptimizerRunCase(Case):
     family = "exit-code/optimizer-step"
 
     def __init__(self, cid, *, R=2, P=1, script, filt=None, estimator="mean", rmin=1, pmin=1, maxf=None, raise_at=None,
-                 allow_nan=False, C=0):
+                 allow_nan=False, C=0, transforms=None):
         """script: list of (functions?, gradients?, point index)"""
         self.id = cid
         self.R, self.P, self.script, self.filt, self.estimator = R, P, script, filt, estimator
@@ -48,17 +48,26 @@ class OptimizerRunCase(Case):
         self.first = 1 if filt and filt.startswith("sort") else None
         rng = np.random.default_rng([R, P, 21])
         self.design = np.round(rng.uniform(-1, 1, (R, P, 2)) * 64) / 64
+        self.transforms = None
+        if transforms == "constraints":
+            self.C = C = max(C, 1)
+            self.transforms = ens.make_transforms(con_scales=np.array([2.0] * C))
+        elif transforms == "all":
+            self.C = C = max(C, 1)
+            self.transforms = ens.make_transforms(var_scales=np.array([2.0, 0.5]), var_offsets=np.array([0.25, -0.5]),
+                                                  obj_scales=np.array([4.0]), con_scales=np.array([2.0] * C))
         self.cfg0 = ens.ensemble_config(
             N=2, R=R, P=P, C=C, rmin=rmin, pmin=pmin, estimators=(estimator,), filters=filters, obj_filt=obj_filt,
-            con_filt=con_filt, x0=[0.25, -0.5],
+            con_filt=con_filt, x0=[0.25, -0.5], lower=-10.0, upper=10.0, context=self.transforms,
             extra={"optimizer": {"method": "symstub/x", "max_functions": 3 if maxf else None}})
+        self.tname = transforms
         fam = "exit-code/optimizer-step"
         if filt:
             fam += "/" + filt
         self.family = fam
 
     def describe(self):
-        return (f"R={self.R} P={self.P} script={self.script} filter={self.filt} estimator={self.estimator} rmin={self.rmin} "
+        return (f"R={self.R} P={self.P} C={self.C} transforms={self.tname} script={self.script} filter={self.filt} estimator={self.estimator} rmin={self.rmin} "
                 f"pmin={self.pmin} max_functions={'symbolic' if self.maxf else None} evaluator_raises_at={self.raise_at} allow_nan={self.allow_nan}")
 
     def inputs(self, env):
@@ -91,7 +100,7 @@ class OptimizerRunCase(Case):
 
         ens.set_script(script, allow_nan=self.allow_nan)
         step = plan.add_step("optimizer")
-        code = plan.run_step(step, config=cfg)
+        code = plan.run_step(step, config=cfg, transforms=self.transforms)
         return {"code": code, "done": len(done), "events": rec.events, "calls": len(ev.calls)}
 
     # ---- reference semantics
@@ -259,7 +268,12 @@ def build_cases(tier):
         add(script=S1, rmin=rmin)
         add(script=S2, rmin=rmin, P=2, pmin=2)
     add(script=S3, maxf=True)
+    add(script=S3, maxf=True, C=2)          # constraints must not be charged against the function budget
+    add(script=S2, maxf=True, C=1, rmin=1)
     add(script=S1, maxf=True)
+    for tr in ("constraints", "all"):       # transforms of every kind
+        add(script=S1, rmin=1, transforms=tr)
+        add(script=S2, rmin=2, transforms=tr, maxf=True)
     add(script=S2, maxf=True, rmin=2)
     for filt in ("sort-objective", "cvar-objective", "sort-constraint", "cvar-constraint"):
         add(script=S1, filt=filt)
